@@ -573,6 +573,21 @@ func runC09(c *h.Ctx) {
 			vars = stdVars1
 		}
 		doc := gen.Doc(r, d)
+		if i%12 == 7 && nsteps >= 3 {
+			// the first steps inside a parenthesised unary expression, the
+			// rest applied to every item it yields: (-$.a[*]) ? (@ < -4) ...
+			cut := chain
+			for j := 1 + r.IntN(2); j > 0; j-- {
+				cut = cut.Next
+			}
+			rest := cut.Next
+			cut.Next = nil
+			chain = &gen.N{K: gen.KUn, S: []string{"-", "+"}[r.IntN(2)], A: chain, Next: rest}
+			nsteps = 0
+			for x := chain.Next; x != nil; x = x.Next {
+				nsteps++
+			}
+		}
 		if i%8 == 5 {
 			// a recursive descent evaluated for existence inside the filter
 			// of another one, over overlapping containers
